@@ -13,7 +13,11 @@ RULE = ('kept chunks: every (number of bounds, n_chunks_kept) pair of the tier o
         'repeats and foreign ids, negative counts). Every call that may sub-sample is repeated under 5 NumPy '
         'seeds; array dtypes/containers (int64, uint64, int32, float64 on a half-integer scale, list/array '
         'arguments; keyword arguments left at their defaults in every other configuration) are multiplied in on the '
-        'implementation side. Non-trivial = the call returns at least one '
+        'implementation side. Round 2 (kind seq): 2-4 calls made one after the other on ONE SpikeSelector object, every '
+        'call judged by the clauses of a single call: every ordered pair of (subset_chunks, count in {None,0,1,2,10}) '
+        'settings on the setups x cluster vectors with spikes inside and outside the kept chunks, request lists / '
+        'subsets in rotation (always a shared cluster); every subset_chunks pattern of 3 and 4 calls; a seeded random '
+        'stream of histories. Non-trivial = the call returns at least one '
         'spike (kept: at least two chunks in the grid); distinct = distinct abstract input.')
 EXHAUSTIVE = {'quick': True, 'thorough': True}
 CLAUSES = {
@@ -56,6 +60,16 @@ def _kept(grid, k, cfg=0):
     return {'kind': 'kept', 'inp': {'grid': list(grid), 'k': k, 'cfg': cfg}}
 
 
+def _call(n, req, sc, sub=None):
+    return {'n': n, 'req': list(req), 'sc': bool(sc), 'sub': None if sub is None else list(sub)}
+
+
+def _seq(times, clusters, grid, k, calls, cfg=0):
+    """calls made one after the other on ONE SpikeSelector object (round-2 seed C17-m5: a cache on the object)"""
+    return {'kind': 'seq', 'inp': {'times': list(times), 'clusters': list(clusters), 'grid': list(grid), 'k': k,
+                                   'calls': [_call(c['n'], c['req'], c['sc'], c['sub']) for c in calls], 'cfg': cfg}}
+
+
 def _route(seed, nst, nspk, rate):
     return {'kind': 'route', 'inp': {'seed': seed, 'nst': nst, 'nspk': nspk, 'rate': rate}}
 
@@ -93,6 +107,15 @@ def _corpus():
     c.append(_sel([0, 1, 2, 3], [1, 2, 1, 2], [0, 9], 1, -1, [2, 1], False, [3, 3, 0, 77, -1]))
     c.append(_sel([], [], [0, 2, 4], 1, 3, [1], True, None))
     c.append(_sel([3, 1, 0, 2], [1, 1, 1, 1], [0, 2, 4], 1, None, [1], True, None))            # unsorted times
+    # round 2: histories on one selector object (C17-m5's demo, scaled down): the chunk restriction applies iff it is
+    # set in THIS call, whichever way the cluster was asked for before
+    t, cl, g = [0, 1, 2, 3, 4, 5, 6, 7, 8, 9], [1, 2, 1, 2, 1, 2, 1, 2, 1, 2], [0, 2, 4, 6, 8, 10]
+    c.append(_seq(t, cl, g, 2, [_call(None, [1, 2], True), _call(2, [1, 2], True), _call(None, [1, 2, 3], False),
+                                _call(10, [2, 3], False)]))
+    c.append(_seq(t, cl, g, 2, [_call(2, [1], False), _call(None, [1], True), _call(2, [1], True)]))
+    c.append(_seq(t, cl, g, 2, [_call(None, [1], True), _call(None, [1], False)]))
+    c.append(_seq(t, cl, g, 2, [_call(None, [2], False), _call(None, [2], True)]))
+    c.append(_seq(t, cl, g, 2, [_call(1, [2], True), _call(1, [1], False), _call(0, [2, 1], False, [1, 3, 4, 5])]))
     return c
 
 
@@ -111,6 +134,7 @@ def generate(tier, rng):
     cases = _corpus()
     if tier == 'search':
         cases += [_random(rng, big=True) for _ in range(6000)]
+        cases += [_random_seq(rng, big=True) for _ in range(2000)]
         return cases
     quick = tier == 'quick'
     # kept chunks: all (bounds, k)
@@ -150,12 +174,74 @@ def generate(tier, rng):
                                 n += 1
     for _ in range(1500 if quick else 20000):
         cases.append(_random(rng))
+    cases += _seq_cases(quick, n)
+    for _ in range(400 if quick else 5000):
+        cases.append(_random_seq(rng))
     # the route through TemplateModel.save_spikes_subset_waveforms on generated datasets (chunks of 6 or 3
     # samples, so that the recordings have fewer and more than the 20 chunks the method asks for)
     for _ in range(60 if quick else 600):
         cases.append(_route(rng.randrange(10 ** 6), rng.choice((1, 1, 2, 3, 50)), rng.choice((3, 8, 20, 40, 60)),
                             rng.choice((0.01, 0.005))))
     return cases
+
+
+_SEQ_SETTINGS = [(sc, nn) for sc in (False, True) for nn in _NS]
+# request lists of two consecutive calls (they share a cluster, except the last pair)
+_SEQ_REQS = [([1], [1]), ([1, 2], [2]), ([2, 1], [1, 7, 2]), ([2], [1, 2]), ([1, 1], [2, 1]), ([1], [2])]
+
+
+def _seq_cases(quick, n0=0):
+    """histories on one selector: (a) every ordered pair of (subset_chunks, count) settings, (b) every subset_chunks
+    pattern of 3 and of 4 calls, on setups x cluster vectors in which both clusters have spikes inside and outside
+    the kept chunks; request lists, subsets and counts of (b) in rotation"""
+    cases = []
+    n = n0
+    setups = _SETUPS[:3] if quick else _SETUPS
+    vectors = [[1] * 8, [1, 2] * 4, [1, 1, 2, 1, 2, 2, 1, 2]] + ([] if quick else [[2, 2, 1, 1, 1, 2, 1, 2], [1, 2, 2, 2, 2, 1, 2, 2]])
+    for grid, k, pat in setups:
+        for cl in vectors:
+            L = len(cl)
+            subs = [None, None, None, [i for i in range(L) if i % 3 != 1] + [L + 3], None, []]
+            for (sc1, n1) in _SEQ_SETTINGS:
+                for (sc2, n2) in _SEQ_SETTINGS:
+                    r1, r2 = _SEQ_REQS[n % len(_SEQ_REQS)]
+                    cases.append(_seq(pat, cl, grid, k, [_call(n1, r1, sc1, subs[n % 6]), _call(n2, r2, sc2, subs[(n // 6) % 6])],
+                                      n % len(CFGS)))
+                    n += 1
+            for m in (3, 4):
+                for scs in itertools.product((False, True), repeat=m):
+                    for rot in range(3 if quick else 5):
+                        calls = []
+                        for j, sc in enumerate(scs):
+                            r = _SEQ_REQS[(n + j) % len(_SEQ_REQS)][j % 2]
+                            calls.append(_call(_NS[(rot + 2 * j + n) % len(_NS)], r, sc, subs[(n + 5 * j) % 6]))
+                        cases.append(_seq(pat, cl, grid, k, calls, n % len(CFGS)))
+                        n += 1
+    return cases
+
+
+def _random_seq(rng, big=False):
+    """a random selector (as _random) and 2-4 random calls on it, most of them sharing clusters"""
+    i = _random(rng, big)['inp']
+    ids = sorted(set(i['clusters'])) or [1]
+    N = len(i['times'])
+    calls = [_call(i['n'], i['req'], i['sc'], i['sub'])]
+    for _ in range(rng.randint(1, 3)):
+        prev = calls[-1]
+        r = rng.random()
+        if r < 0.4:
+            req = list(prev['req'])
+        elif r < 0.7:
+            req = [rng.choice(ids) for _ in range(rng.randint(1, 3))]
+        else:
+            req = [rng.choice(ids + [99]) for _ in range(rng.choice((0, 1, 2, 4)))]
+        n = rng.choice((None, None, 0, 1, 2, 3, 5, 10, -1, prev['n']))
+        sc = (not prev['sc']) if rng.random() < 0.6 else rng.random() < 0.5
+        sub = None
+        if rng.random() < 0.3:
+            sub = [rng.randint(-1, N + 1) for _ in range(rng.randint(0, N + 2))]
+        calls.append(_call(n, req, sc, sub))
+    return _seq(i['times'], i['clusters'], i['grid'], i['k'], calls, i['cfg'])
 
 
 def _random(rng, big=False):
@@ -259,10 +345,11 @@ def _omit_defaults(i):
     return i.get('cfg', 0) % 2 == 1
 
 
-def _call_kwargs(i, sub):
+def _call_kwargs(i, sub, sc=None):
     kw = {}
-    if i['sc'] or not _omit_defaults(i):
-        kw['subset_chunks'] = i['sc']
+    sc = i['sc'] if sc is None else sc
+    if sc or not _omit_defaults(i):
+        kw['subset_chunks'] = sc
     if sub is not None or not _omit_defaults(i):
         kw['subset_spikes'] = sub
     return kw
@@ -277,6 +364,28 @@ def run_case(case):
     if k == 'kept':
         return ('kept', kept)
     cont = CFGS[i.get('cfg', 0)][3]
+    if k == 'seq':
+        calls = i['calls']
+        draws = any(c['n'] is not None and c['n'] > 0 for c in calls)
+        per_call = [[] for _ in calls]
+        for s in (SEEDS[:3] if draws else SEEDS[:1]):
+            # the WHOLE history on one object; a fresh object per NumPy seed
+            ss, kept2 = _selector(i)
+            if kept2 != kept:
+                raise RuntimeError('chunks_kept differs between two constructions: %r %r' % (kept, kept2))
+            for j, c in enumerate(calls):
+                req = np.array(c['req'], dtype=np.int64) if cont == 'array' else list(c['req'])
+                sub = c['sub']
+                if sub is not None and cont == 'array':
+                    sub = np.array(sub, dtype=np.int64)
+                np.random.seed(s + 7 * j)
+                out = np.asarray(ss(c['n'], req, **_call_kwargs(i, sub, c['sc'])))
+                if out.ndim != 1 or out.dtype.kind not in 'iu':
+                    raise RuntimeError('selection %d is not a 1-D integer array: %r %r' % (j, out.dtype, out.shape))
+                r = [int(x) for x in out]
+                if r not in per_call[j]:
+                    per_call[j].append(r)
+        return ('seq', kept, per_call)
     req = np.array(i['req'], dtype=np.int64) if cont == 'array' else list(i['req'])
     sub = i['sub']
     if sub is not None and cont == 'array':
@@ -308,6 +417,11 @@ def encode(case, obs):
         cin = q.app('InSelect', q.zl(i['times']), q.zl(i['clusters']), q.zl(i['grid']), q.z(i['k']),
                     q.opt(i['n']), q.zl(i['req']), q.b(i['sc']), q.opt(i['sub'], q.zl))
         cobs = 'ObsCrash' if crash else q.app('ObsSelect', q.zl(obs[1]), q.zll(obs[2]))
+    elif k == 'seq':
+        cin = q.app('InSeq', q.zl(i['times']), q.zl(i['clusters']), q.zl(i['grid']), q.z(i['k']),
+                    q.lst(i['calls'], lambda c: q.app('mkcall', q.opt(c['n']), q.zl(c['req']), q.b(c['sc']),
+                                                      q.opt(c['sub'], q.zl))))
+        cobs = 'ObsCrash' if crash else q.app('ObsSeq', q.zl(obs[1]), q.lst(obs[2], q.zll))
     elif k == 'route':
         if crash:
             # without the loaded arrays the input cannot be stated; a well-formed stand-in makes the crash
@@ -329,6 +443,8 @@ def nontrivial(case, obs):
         return len(case['inp']['grid']) >= 3
     if case['kind'] == 'route':
         return any(len(r) > 0 for r in obs[4])
+    if case['kind'] == 'seq':
+        return any(len(r) > 0 for rs in obs[2] for r in rs)
     return any(len(r) > 0 for r in obs[2])
 
 
@@ -356,6 +472,21 @@ def dist(case, obs):
     out.append('%s.n_chunks=%s' % (k, _bucket(nch)))
     out.append('%s.kept_chunks=%s' % (k, _bucket(len(obs[1]) // 2)))
     out.append('%s.k_vs_chunks=%s' % (k, 'lt' if i['k'] < nch else 'eq' if i['k'] == nch else 'gt'))
+    if k == 'seq':
+        calls = i['calls']
+        out.append('seq.calls=%d' % len(calls))
+        out.append('seq.subset_chunks=%s' % ''.join('T' if c['sc'] else 'F' for c in calls))
+        flips = [(a, b) for a, b in zip(calls, calls[1:]) if a['sc'] != b['sc']]
+        out.append('seq.flag_changes=%s' % bool(flips))
+        known = set(i['clusters'])
+        shared = any(set(a['req']) & set(b['req']) & known for x, a in enumerate(calls) for b in calls[x + 1:]
+                     if a['sc'] != b['sc'])
+        out.append('seq.cluster_asked_under_both_flags=%s' % shared)
+        out.append('seq.counts=%s' % ','.join('None' if c['n'] is None else '<=0' if c['n'] <= 0 else _bucket(c['n'])
+                                              for c in calls[:2]))
+        out.append('seq.subset_given=%s' % any(c['sub'] is not None for c in calls))
+        out.append('seq.draws_differ=%s' % any(len(rs) > 1 for rs in obs[2]))
+        out.append('seq.returned=%s' % _bucket(max(len(r) for rs in obs[2] for r in rs)))
     if k == 'select':
         n = i['n']
         out.append('select.count=%s' % ('None' if n is None else '<=0' if n <= 0 else _bucket(n)))
@@ -379,6 +510,10 @@ def size(case):
     i = case['inp']
     if case['kind'] == 'route':
         return 1000 + i['nspk'] + i['nst']
+    if case['kind'] == 'seq':
+        return 3 * len(i['times']) + 2 * len(i['grid']) + min(i['k'], 20) + sum(
+            4 + len(c['req']) + len(c['sub'] or []) + (1 if c['sub'] is not None else 0) + (1 if c['n'] is not None else 0)
+            for c in i['calls'])
     return 3 * len(i.get('times', [])) + 2 * len(i['grid']) + len(i.get('req', [])) + len(i.get('sub') or []) + \
         (1 if i.get('sub') is not None else 0) + (1 if i.get('sc') else 0) + min(i['k'], 20)
 
@@ -403,6 +538,30 @@ def shrink(case):
     if i.get('cfg', 0) != 0:
         yield mk(cfg=0)
     g = i['grid']
+    if k == 'seq':
+        calls = i['calls']
+        if len(calls) > 2:
+            for d in range(len(calls)):
+                yield mk(calls=calls[:d] + calls[d + 1:])
+        t, c = i['times'], i['clusters']
+        for d in range(len(t)):
+            # dropping spike d renumbers the later spikes; renumber every call's subset accordingly
+            nc = [dict(x, sub=None if x['sub'] is None else [s - 1 if s > d else s for s in x['sub'] if s != d])
+                  for x in calls]
+            yield mk(times=t[:d] + t[d + 1:], clusters=c[:d] + c[d + 1:], calls=nc)
+        for j, x in enumerate(calls):
+            def rep(**kw):
+                return mk(calls=calls[:j] + [dict(x, **kw)] + calls[j + 1:])
+            for d in range(len(x['req'])):
+                yield rep(req=x['req'][:d] + x['req'][d + 1:])
+            if x['sub'] is not None:
+                yield rep(sub=None)
+                for d in range(len(x['sub'])):
+                    yield rep(sub=x['sub'][:d] + x['sub'][d + 1:])
+            if x['n'] is not None:
+                yield rep(n=None)
+                if x['n'] > 1:
+                    yield rep(n=x['n'] - 1)
     if k == 'select':
         t, c = i['times'], i['clusters']
         for d in range(len(t)):
@@ -429,7 +588,7 @@ def shrink(case):
     if i['k'] > 1:
         yield mk(k=i['k'] - 1)
         yield mk(k=i['k'] // 2)
-    if k == 'select':
+    if k in ('select', 'seq'):
         t = i['times']
         for d in range(len(t)):
             if t[d] > 0:
@@ -452,6 +611,11 @@ def repro(case):
             "ss = SpikeSelector(get_spikes_per_cluster=lambda cl: spc.get(cl, np.array([], dtype=np.int64)),\n"
             "                   spike_times=np.array(%r), chunk_bounds=%r, n_chunks_kept=%r)\n"
             "print('chunks_kept', ss.chunks_kept)\n" % (i.get('clusters', []), i.get('times', []), i['grid'], i['k']))
+    if k == 'seq':
+        body += "# the calls below are made one after the other on the SAME object ss\n"
+        for j, c in enumerate(i['calls']):
+            kw = ''.join(', %s=%r' % kv for kv in _call_kwargs(i, c['sub'], c['sc']).items())
+            body += "np.random.seed(%d); print('call %d:', ss(%r, %r%s))\n" % (7 * j, j, c['n'], c['req'], kw)
     if k == 'select':
         kw = ''.join(', %s=%r' % kv for kv in _call_kwargs(i, i['sub']).items())
         body += ("for seed in range(5):\n    np.random.seed(seed)\n"
